@@ -60,7 +60,13 @@ def cases(tier, seed):
                     mats = ["iso", "diag", "iso", "full"][(k // 3) % 4]
                     grid = ["uniform", "uniform", "rect_distinct"][(k // 5) % 3]
                     rec = "widen32" if k % 41 == 7 else "plain"
-                    out.append(dict(pml=list(s), thick=th, other=other, src=src, rec=rec, mats=mats, grid=grid, conf=(k % 53 == 0)))
+                    conf = k % 53 == 0
+                    if rec == "widen32":
+                        # float32 scenes run under jax_enable_x64: keep them on the uniform grid with isotropic materials (non-uniform
+                        # metrics / tensor solves are computed in float64 there and promote the float32 fields, which the library's own
+                        # dtype guards then reject) and out of the while_loop drivers (carry dtype must be stable)
+                        mats, grid, conf = "iso", "uniform", False
+                    out.append(dict(pml=list(s), thick=th, other=other, src=src, rec=rec, mats=mats, grid=grid, conf=conf))
                     k += 1
     for c in out:
         c["seed"] = seed
@@ -258,6 +264,7 @@ def run_case(case):
         if d1 > tol:
             fails.append(dict(sig="conformance:run_fdtd-vs-stepwise", detail=dict(defect=d1)))
         if d2 > tol or int(t0) != 0:
-            fails.append(dict(sig="full_backward-does-not-return-initial-interior", detail=dict(defect=d2, t0=int(t0))))
+            cls2 = "full-tensor-touching-pml" if (case["mats"] == "full" and len(case["pml"]) > 0) else case["mats"]
+            fails.append(dict(sig=f"full_backward-does-not-return-initial-interior:{cls2}", detail=dict(defect=d2, t0=int(t0))))
     nontriv = len(case["pml"]) > 0 and detail["pml_reach"] > 0
     return dict(ok=not fails, failures=fails, detail=detail, nontrivial=int(nontriv), evals=rows * 2 * T, states=rows, transitions=rows * 2 * T, traces=traces, outcome=f"npml={len(case['pml'])},reach={'y' if detail['pml_reach'] > 0 else 'n'}")
